@@ -402,11 +402,9 @@ func (ev *Eval) ownerOfSerial(n int) *Eval {
 
 func (ev *Eval) containerContents(obj ssa.Value, n int64, length *Term) *Term {
 	stores := ev.index().byObj[obj]
-	type first struct {
-		idx *Term
-		rec *storeRec
-	}
+	type first = idxStore
 	var firsts []first
+	firsts0 := func(fs []first) []idxStore { return fs }
 	for _, s := range stores {
 		if len(s.path) == 0 {
 			// whole-object store (array copy)
@@ -436,12 +434,19 @@ func (ev *Eval) containerContents(obj ssa.Value, n int64, length *Term) *Term {
 			allConst = false
 		}
 	}
+
 	value := func(s *storeRec) *Term {
 		v := ev.op(s.val, s.instr)
 		if v.K == KMake {
 			return ev.Contents(v)
 		}
 		return v
+	}
+	// make(k+len(src)); dst[0..k) = elements; copy(dst[k:], src)  ⇒  [e0 … e(k-1) src...]
+	if allConst && n < 0 && length != nil {
+		if t := ev.prefixThenCopy(obj, length, firsts0(firsts), value); t != nil {
+			return t
+		}
 	}
 	if allConst && n >= 0 {
 		parts := make([]*Term, n)
@@ -472,6 +477,74 @@ func (ev *Eval) containerContents(obj ssa.Value, n int64, length *Term) *Term {
 		}
 	}
 	return Top("container %s is filled through an unrecognised index pattern", obj.Name())
+}
+
+type idxStore struct {
+	idx *Term
+	rec *storeRec
+}
+
+// prefixThenCopy recognises a buffer whose first k elements are stored at constant indices and whose remainder is filled by
+// one unconditional copy(buf[k:], src), with len(buf) = k + len(src).
+func (ev *Eval) prefixThenCopy(obj ssa.Value, length *Term, firsts []idxStore, value func(*storeRec) *Term) *Term {
+	var cp *ssa.Call
+	for _, b := range ev.Fn.Blocks {
+		for _, in := range b.Instrs {
+			c, ok := in.(*ssa.Call)
+			if !ok {
+				continue
+			}
+			if bi, isB := c.Common().Value.(*ssa.Builtin); !isB || bi.Name() != "copy" || len(c.Common().Args) != 2 {
+				continue
+			}
+			if sl, isSl := c.Common().Args[0].(*ssa.Slice); isSl && sl.X == obj && sl.High == nil && sl.Low != nil {
+				if cp != nil {
+					return nil
+				}
+				cp = c
+			} else if c.Common().Args[0] == obj {
+				return nil
+			}
+		}
+	}
+	if cp == nil || innermost(ev.Loops(), cp.Block()) != nil {
+		return nil
+	}
+	for _, b := range ev.Fn.Blocks {
+		if len(b.Instrs) > 0 {
+			if _, isRet := b.Instrs[len(b.Instrs)-1].(*ssa.Return); isRet && !(cp.Block() == b || cp.Block().Dominates(b)) {
+				return nil
+			}
+		}
+	}
+	sl := cp.Common().Args[0].(*ssa.Slice)
+	k, ok := IntConst(ev.opIn(sl.Low, sl.Block()))
+	if !ok || k < 0 || int(k) != len(firsts) {
+		return nil
+	}
+	src := ev.op(cp.Common().Args[1], cp)
+	if d := AffAdd(length, AffAdd(Len(src), ConstInt(k), 1), -1); d == nil || !isZeroConst(d) {
+		return nil
+	}
+	parts := make([]*Term, k)
+	for _, f := range firsts {
+		i, _ := IntConst(f.idx)
+		if i < 0 || i >= k || parts[i] != nil {
+			return nil
+		}
+		parts[i] = Elem(value(f.rec))
+	}
+	for _, p := range parts {
+		if p == nil {
+			return nil
+		}
+	}
+	return Seq(append(parts, Parts(src)...)...)
+}
+
+func isZeroConst(t *Term) bool {
+	n, ok := IntConst(t)
+	return ok && n == 0
 }
 
 // StarIndex returns the index expression under which a starred element is stored (for make/array fills).
